@@ -419,6 +419,18 @@ def _leafwise(v, fn):
     return fn(v)
 
 
+def _canon(v):
+    """Text of an abstract value with the operands of commutative operations in a fixed order."""
+    if isinstance(v, Atom):
+        parts = [_canon(a) for a in v.args]
+        if v.op in ('add', 'mul'):
+            parts = sorted(parts)
+        return '%s(%s)' % (v.op, ', '.join(parts))
+    if isinstance(v, ListV):
+        return '[%s]' % ', '.join(_canon(i) for i in v.items)
+    return repr(v)
+
+
 def _arrays(model, res, c, g, acts, opaque, E):
     m, f = acts['arith']
     where = m.where(f)
@@ -500,6 +512,36 @@ def _arrays(model, res, c, g, acts, opaque, E):
                 res.violation('R6', 'arith:arrays:%s' % label.replace(' ', '-'), where,
                               '%s with %s must broadcast the text over the array and convert it like any text operand (for text spelling an '
                               'integer: %s); got %s' % (label, op, want, '; '.join(H.describe(outs)[:3])), case={'op': op, 'case': label}, func=f.name)
+        # a date-time scalar against an array: every element is what the scalar operation on that element and the date gives (a date
+        # for number + date, days for date - date) - the scalar is not converted on its own before the elements are looked at
+        if op in ('+', '-'):
+            for label, etag, side in (('array op date scalar', 'int', 'right'), ('date scalar op array', 'int', 'left'),
+                                      ('array of dates op date scalar', 'datetime', 'right')):
+                def scalar_shapes(name, etag=etag, side=side, op=op):
+                    mk_e = lambda: Sym(etag, name)
+                    mk_d = lambda: Sym('datetime', 'D')
+                    o_ = _run_arith(model, g, acts, opaque, op, mk_e if side == 'right' else mk_d, mk_d if side == 'right' else mk_e)
+                    return set(_canon(x.value) for x in o_ if x.kind == 'return' and not x.imprecise), any(x.imprecise for x in o_)
+                try:
+                    s0, imp0 = scalar_shapes('a0')
+                    s1, imp1 = scalar_shapes('a1')
+                    mk_a = lambda etag=etag: ListV([Sym(etag, 'a0'), Sym(etag, 'a1')])
+                    mk_d = lambda: Sym('datetime', 'D')
+                    outs = _run_arith(model, g, acts, opaque, op, mk_a if side == 'right' else mk_d, mk_d if side == 'right' else mk_a)
+                except Unmodelled as e:
+                    res.ob('R6', f.name, {'op': op, 'case': label}, True, 'undecided: %s' % e)
+                    continue
+                if imp0 or imp1 or any(o.imprecise for o in outs) or not s0 or not s1:
+                    res.ob('R6', f.name, {'op': op, 'case': label}, True, 'undecided: imprecise traces')
+                    continue
+                rets = [o for o in outs if o.kind == 'return' and isinstance(o.value, ListV) and len(o.value.items) == 2]
+                bad = [o for o in rets if _canon(o.value.items[0]) not in s0 or _canon(o.value.items[1]) not in s1]
+                ok = bool(rets) and not bad
+                res.ob('R6', f.name, {'op': op, 'case': label}, ok, H.describe(bad or outs)[:2])
+                if not ok:
+                    res.violation('R6', 'arith:arrays:%s' % label.replace(' ', '-'), where,
+                                  '%s with %s must give, element by element, what the operation gives on that element and the date (%s); got %s'
+                                  % (label, op, sorted(s0)[:2], '; '.join(H.describe(bad or outs)[:2])), case={'op': op, 'case': label}, func=f.name)
         outs = _run_arith(model, g, acts, opaque, op, lambda: arr('a', 2), lambda: arr('b', 3))
         ok = all(o.kind == 'return' and isinstance(o.value, Err) and o.value.name == E['#VALUE!'] for o in outs)
         res.ob('R6', f.name, {'op': op, 'case': 'length mismatch'}, ok, H.describe(outs))
